@@ -129,6 +129,16 @@ pub fn world(pool: &Pool, seed: u64, n: u64) -> Scenario {
         g.add_dir("src", 1);
     }
     g.add_dir("", 0);
+    // now and then a chain deeper than anything else in the tree
+    if g.rng.chance(1, 6) {
+        let base = if g.dirs.iter().any(|d| d == "src") && g.rng.chance(1, 2) { "src" } else { "" };
+        let chain = join(base, "l1/l2/l3/l4/l5/l6/l7/l8/l9");
+        g.stem_no += 1;
+        let t = g.text();
+        let f = join(&chain, &format!("deep{}.lalrpop", g.stem_no));
+        g.ops.push(Op::Write { path: format!("proj/{f}"), content: Content::from_bytes(&t) });
+        g.grammars.push(f);
+    }
     // links (after the plain tree, so that `dirs` holds link-free directories)
     let nlinks = g.rng.range(0, 4);
     let plain_dirs = g.dirs.clone();
@@ -137,9 +147,18 @@ pub fn world(pool: &Pool, seed: u64, n: u64) -> Scenario {
         let host = if plain_dirs.is_empty() || g.rng.chance(1, 4) { String::new() } else { g.rng.pick(&plain_dirs).clone() };
         match g.rng.below(7) {
             0 => {
-                // link to a grammar file, grammar-like name
+                // link to a grammar file, grammar-like name; the target may carry any name at all
                 let p = join(&host, &format!("lnk{li}.lalrpop"));
-                g.ops.push(Op::Symlink { path: format!("proj/{p}"), target: format!("{{ROOT}}/{ext_file}") });
+                let target = if g.rng.chance(1, 2) {
+                    format!("{{ROOT}}/{ext_file}")
+                } else {
+                    g.stem_no += 1;
+                    let t = g.text();
+                    let other = format!("ext/plain{}.txt", g.stem_no);
+                    g.ops.push(Op::Write { path: other.clone(), content: Content::from_bytes(&t) });
+                    format!("{{ROOT}}/{other}")
+                };
+                g.ops.push(Op::Symlink { path: format!("proj/{p}"), target });
                 g.grammars.push(p);
             }
             1 => {
@@ -277,7 +296,7 @@ pub fn world(pool: &Pool, seed: u64, n: u64) -> Scenario {
             NodeKind::Cli { args }
         }
     };
-    let node = NodeSpec { kind, cwd: "proj".into(), env, hashseed: 0, faults: vec![], leak: 0, canary: false };
+    let node = NodeSpec { kind, cwd: "proj".into(), env, hashseed: 0, faults: vec![], leak: 0, canary: false, clock: None, pid: None };
     g.ops.push(Op::Build { node: node.clone(), tag: "check".into() });
 
     // ---- second round: the tree changes, outputs of the first build lie around
@@ -323,7 +342,7 @@ pub fn run(engine: &Engine, tier: &str, seed: u64) -> i32 {
     let t0 = Instant::now();
     let thorough = tier == "thorough";
     let pool = Pool::load();
-    let n = if thorough { 60_000u64 } else { 3_000 };
+    let n = if thorough { 40_000u64 } else { 3_000 };
     let ids: Vec<u64> = (0..n).collect();
     let outs: Vec<(Scenario, Outcome)> = engine.par_map(&ids, |ctx, i| {
         let sc = world(&pool, seed, *i);
